@@ -3,7 +3,8 @@
 #include <stddef.h>
 #include <sys/types.h>
 
-#define HX_MAXPROC 4096
+#define HX_MAXPROC 131072
+#define HX_MAXLIVES 4096
 
 struct hx_proc {
 	pid_t pid;
